@@ -469,16 +469,32 @@ func reachCore(b *ssa.BasicBlock, from int, target, barrier func(ssa.Instruction
 }
 
 func reachCoreX(b *ssa.BasicBlock, from int, target, barrier func(ssa.Instruction) bool, blocked func(a, b *ssa.BasicBlock, succIdx int) bool) bool {
+	var bar func(ssa.Instruction, int) bool
+	if barrier != nil {
+		bar = func(in ssa.Instruction, _ int) bool { return barrier(in) }
+	}
+	return reachStagedX(b, from, []func(ssa.Instruction) bool{target}, bar, blocked)
+}
+
+// reachStaged: is there a path from the start of b that meets an instruction satisfying milestones[0], later one
+// satisfying milestones[1], and so on, without passing an instruction for which barrier(in, k) holds while k milestones
+// have been met?  One search, so that what the path knows (phi values, nil facts) carries over from stage to stage.
+func reachStaged(b *ssa.BasicBlock, milestones []func(ssa.Instruction) bool, barrier func(ssa.Instruction, int) bool) bool {
+	return reachStagedX(b, 0, milestones, barrier, nil)
+}
+
+func reachStagedX(b *ssa.BasicBlock, from int, milestones []func(ssa.Instruction) bool, barrier func(ssa.Instruction, int) bool, blocked func(a, b *ssa.BasicBlock, succIdx int) bool) bool {
 	defer func(old phiEnv) { reachEnv = old }(reachEnv)
 	type state struct {
 		b     *ssa.BasicBlock
 		from  int
 		env   phiEnv
 		facts pathFacts
+		stage int
 	}
 	defer func(old pathFacts) { reachFacts = old }(reachFacts)
 	visited := map[string]bool{}
-	work := []state{{b, from, nil, seedFacts}}
+	work := []state{{b, from, nil, seedFacts, 0}}
 	seedFacts = nil
 	steps := 0
 	for len(work) > 0 {
@@ -493,12 +509,15 @@ func reachCoreX(b *ssa.BasicBlock, from int, target, barrier func(ssa.Instructio
 		reachFacts = st.facts
 		for i := st.from; i < len(st.b.Instrs); i++ {
 			in := st.b.Instrs[i]
-			if barrier != nil && barrier(in) {
+			if barrier != nil && barrier(in, st.stage) {
 				stop = true
 				break
 			}
-			if target(in) {
-				return true
+			if milestones[st.stage](in) {
+				st.stage++
+				if st.stage == len(milestones) {
+					return true
+				}
 			}
 		}
 		if stop {
@@ -605,12 +624,12 @@ func reachCoreX(b *ssa.BasicBlock, from int, target, barrier func(ssa.Instructio
 					facts = nf
 				}
 			}
-			key := fmt.Sprintf("%d|%s|%s", s.Index, envKey(env), factsKey(facts))
+			key := fmt.Sprintf("%d|%d|%s|%s", s.Index, st.stage, envKey(env), factsKey(facts))
 			if visited[key] {
 				continue
 			}
 			visited[key] = true
-			work = append(work, state{s, 0, env, facts})
+			work = append(work, state{s, 0, env, facts, st.stage})
 		}
 	}
 	return false
@@ -1566,4 +1585,150 @@ func nilTests(v ssa.Value) []nilTest {
 		}
 	}
 	return out
+}
+
+// chanOrigins: the make(chan) instructions whose result can be the channel value v, looking through local variables
+// (also captured ones), fields of local struct variables and copies of such structs.  nil when some way v gets its
+// value is not understood (a call result, a parameter, a field of something that is not a local variable).
+func chanOrigins(v ssa.Value) (out []*ssa.MakeChan, ok bool) {
+	seen := map[string]bool{}
+	set := map[*ssa.MakeChan]bool{}
+	ok = true
+	resolve := func(a ssa.Value) ssa.Value {
+		for {
+			if fv, isFV := a.(*ssa.FreeVar); isFV {
+				a = resolveFreeVar(fv)
+				continue
+			}
+			return a
+		}
+	}
+	var val func(v ssa.Value, d int)
+	var field func(base ssa.Value, path []int, d int)
+	// all functions that can see a local of fn: fn and the closures nested in it
+	var family func(fn *ssa.Function, visit func(*ssa.Function))
+	family = func(fn *ssa.Function, visit func(*ssa.Function)) {
+		visit(fn)
+		for _, a := range fn.AnonFuncs {
+			family(a, visit)
+		}
+	}
+	// fieldPathOf: addr = &(&(*base).f1).f2 … with base an allocation
+	fieldPathOf := func(addr ssa.Value) (ssa.Value, []int) {
+		var path []int
+		for {
+			fa, isFA := addr.(*ssa.FieldAddr)
+			if !isFA {
+				break
+			}
+			path = append([]int{fa.Field}, path...)
+			addr = fa.X
+		}
+		return resolve(addr), path
+	}
+	samePath := func(a, b []int) bool {
+		if len(a) != len(b) {
+			return false
+		}
+		for i := range a {
+			if a[i] != b[i] {
+				return false
+			}
+		}
+		return true
+	}
+	field = func(base ssa.Value, path []int, d int) {
+		al, isAlloc := base.(*ssa.Alloc)
+		if !isAlloc || d > 8 {
+			ok = false
+			return
+		}
+		key := fmt.Sprintf("%p%v", al, path)
+		if seen[key] {
+			return
+		}
+		seen[key] = true
+		found := false
+		family(al.Parent(), func(f *ssa.Function) {
+			eachInstr(f, func(in ssa.Instruction) {
+				st, isSt := in.(*ssa.Store)
+				if !isSt {
+					return
+				}
+				b, p := fieldPathOf(st.Addr)
+				if b != ssa.Value(al) {
+					return
+				}
+				switch {
+				case samePath(p, path):
+					found = true
+					val(st.Val, d+1)
+				case len(p) < len(path) && samePath(p, path[:len(p)]):
+					// a store of a whole (sub)struct that contains the field: follow the value it copies
+					rest := path[len(p):]
+					found = true
+					switch x := st.Val.(type) {
+					case *ssa.UnOp:
+						if x.Op == token.MUL {
+							b2, p2 := fieldPathOf(x.X)
+							field(b2, append(append([]int{}, p2...), rest...), d+1)
+							return
+						}
+					case *ssa.Const:
+						return // the zero struct: a nil channel
+					}
+					ok = false
+				}
+			})
+		})
+		if !found && len(path) > 0 {
+			// never stored: the zero value
+		}
+	}
+	val = func(v ssa.Value, d int) {
+		if d > 8 {
+			ok = false
+			return
+		}
+		switch x := v.(type) {
+		case *ssa.MakeChan:
+			set[x] = true
+		case *ssa.ChangeType:
+			val(x.X, d+1)
+		case *ssa.Const:
+			// nil channel
+		case *ssa.Phi:
+			key := fmt.Sprintf("%p", x)
+			if seen[key] {
+				return
+			}
+			seen[key] = true
+			for _, e := range x.Edges {
+				val(e, d+1)
+			}
+		case *ssa.UnOp:
+			if x.Op != token.MUL {
+				ok = false
+				return
+			}
+			b, p := fieldPathOf(x.X)
+			field(b, p, d+1)
+		case *ssa.Field:
+			// a field of a struct value: the struct value must be a load of a local
+			if u, isU := x.X.(*ssa.UnOp); isU && u.Op == token.MUL {
+				b, p := fieldPathOf(u.X)
+				field(b, append(append([]int{}, p...), x.Field), d+1)
+				return
+			}
+			ok = false
+		default:
+			ok = false
+		}
+	}
+	val(v, 0)
+	for m := range set {
+		out = append(out, m)
+	}
+	sort.Slice(out, func(i, j int) bool { return out[i].Pos() < out[j].Pos() })
+	return out, ok
 }
